@@ -3,12 +3,14 @@ sys.path.insert(0, os.path.dirname(os.path.abspath(__file__)))
 from common import *
 PROPERTY = 'C04'
 US = {'re_match': 10, 'bcmp': 24, 'strlen': 24, 'memcmp': 24, 'verif_mem': 70}
-HARNESSES = {'c04_span': dict(src='c05_tracer.cc', defines=['PARENT_MODE=0', 'OTEL_INTERNAL_LOG_LEVEL=0'], overrides=TS_OVERRIDES,
-             models=TS_MODELS + ['libc.c', 'cxxrt.c', 'stdstring.c', 'single_threaded.c', 'pthread_clock.c'], gen_models=gen_regex_tables, ir2c_flags=['--new-array-max', '64'], model_defines=['VERIF_NEW_ARRAY_MAX=64'])}
-QUERIES = [dict(name='span_ops_before_after_end', harness='c04_span', entry='h_span_ops', unwind=18, unwindset=US, rec_unwind=3, timeout=1500,
-                shape='4 symbolic operations from {SetAttribute, AddEvent, SetStatus, UpdateName, End} on a recording span, then destruction'),
+def h(n):
+    return dict(src='c05_tracer.cc', defines=['PARENT_MODE=0', 'NOPS=%d' % n, 'NO_DTOR_CHECK', 'OTEL_INTERNAL_LOG_LEVEL=0'], overrides=TS_OVERRIDES + [SP_RELEASE],
+             models=TS_MODELS + ['libc.c', 'cxxrt.c', 'stdstring.c', 'single_threaded.c', 'pthread_clock.c', SP_LEAK_MODEL], gen_models=gen_regex_tables, ir2c_flags=['--new-array-max', '64'], model_defines=['VERIF_NEW_ARRAY_MAX=64'])
+HARNESSES = {'c04_span': h(2), 'c04_span3': h(3), 'c04_span4': h(4)}
+QUERIES = [dict(name='span_ops_before_after_end_%dops' % n, harness=t, entry='h_span_ops', unwind=18, unwindset=US, rec_unwind=3, timeout=1500 if n == 2 else 3000, tier='quick' if n == 2 else 'thorough', mem_gb=24,
+                shape='%d symbolic operations from {SetAttribute, AddEvent, SetStatus, UpdateName, End} on a recording span, then a final End' % n) for (n, t) in ((2, 'c04_span'), (3, 'c04_span3'), (4, 'c04_span4'))] + [
            dict(name='dropped_span_inert', harness='c04_span', entry='h_span_ops_dropped', unwind=18, unwindset=US, rec_unwind=3, timeout=1500,
                 shape='3 symbolic operations on a span the sampler dropped, then destruction')]
-BOUNDS = ['4 operations per span, one processor (mock) and mock recordable']
-OUTSIDE = ['SpanData / attribute map contents and ownership of caller buffers (std::unordered_map of variants: not encoded yet)', 'MultiRecordable fan-out', 'several threads on one span (mutex discipline only through the self-deadlock model)']
-ASSUMPTIONS = ['pthread mutex = owner flag', 'clocks arbitrary non-decreasing']
+BOUNDS = ['2 operations per span in the quick tier (3 and 4 thorough), one processor (mock) and mock recordable']
+OUTSIDE = ['Span destruction ending an open span (shared_ptr disposers are not run in these queries: measured, with the real release path the 2-operation query did not finish in 600 s)', 'SpanData / attribute map contents and ownership of caller buffers (std::unordered_map of variants: not encoded yet)', 'MultiRecordable fan-out', 'several threads on one span (mutex discipline only through the self-deadlock model)']
+ASSUMPTIONS = ['std::shared_ptr release does not run disposers', 'pthread mutex = owner flag', 'clocks arbitrary non-decreasing']
